@@ -319,9 +319,13 @@ pub fn spell(r: &WfRecipe, st: &Style) -> String {
             Block::Section(n) => match n { Some(n) => out.push_str(&format!("={} {n} {}", if rng.chance(1, 2) { "=" } else { "" }, rng.pick_str(&["", "=", "=="]))), None => out.push_str(rng.pick_str(&["=", "==", "= ="])) },
             Block::Text(ps) => { for (i, p) in ps.iter().enumerate() { if i > 0 { out.push('\n'); } out.push_str("> "); out.push_str(p); } }
             Block::Components(cs) => {
-                out.push_str(rng.pick_str(&[">> [mode]: components\n\n", ">> [define]: ingredients\n\n", ">>[mode]:components\n\n"]));
+                // a `>>` line is a block of its own: the blank lines around the mode switches are optional
+                let tight = rng.chance(1, 2);
+                out.push_str(rng.pick_str(&[">> [mode]: components", ">> [define]: ingredients", ">>[mode]:components"]));
+                out.push_str(if tight { "\n" } else { "\n\n" });
                 for (i, c) in cs.iter().enumerate() { if i > 0 { out.push('\n'); } out.push_str(&spell_comp(c, &mut rng, st, r.extended)); }
-                out.push_str(rng.pick_str(&["\n\n>> [mode]: all", "\n\n>> [define]: default", "\n\n>> [mode]: all"]));
+                out.push_str(if tight { "\n" } else { "\n\n" });
+                out.push_str(rng.pick_str(&[">> [mode]: all", ">> [define]: default", ">> [mode]: all"]));
             }
             Block::Step(items) => {
                 for it in items {
